@@ -20,6 +20,7 @@ def parse_fsnap(out):
     res = {}
     for part in out.split(" || ")[1:]:
         head, _, rest = part.partition(" ")
+        rest = rest.split(" names ")[0]          # a composite's column names follow its columns
         i, _, kind = head.partition(":")
         cols = {}
         for tok in rest.split():
@@ -34,7 +35,7 @@ class Check(PropertyCheck):
     ID = "C11"
     LEAN_MODULE = "JobShopProofs.Properties.C11"
     THEOREMS = ["JS.C11_isReady", "JS.durationInit_jobs", "JS.durationUpdate_jobs", "JS.C11_duration_jobs",
-                "JS.C11_remaining_jobs", "JS.C11_isScheduled_ops", "JS.C11_constructible", "JS.C11_composite", "JS.C11_duration_ops_stale"]
+                "JS.C11_remaining_jobs", "JS.C11_isScheduled_ops", "JS.C11_constructible", "JS.C11_composite", "JS.C11_composite_names", "JS.C11_duration_ops_stale"]
     RULE = ("random instance (all families; machine-level count features only checked on non-flexible ones; with a filter "
             "installed only positive durations, as the property states) x random subset and order of the seven feature "
             "observers, each with a random subset of its feature types, plus a composite over them, all created on the "
@@ -72,6 +73,8 @@ class Check(PropertyCheck):
                 fts = "".join(rng.sample(sup, rng.randint(1, len(sup))))
             lines.append(f"fobs {k} {fts}")
         lines.append("fcomp all")
+        if rng.random() < 0.4:
+            lines.append("fcomp all")          # a composite that contains the first composite (a multi-column component)
         lines.append("fsnap")
         tr = gen.Tracker(jobs)
         n_acc = 0
@@ -258,9 +261,21 @@ class Check(PropertyCheck):
                     if arr.shape != want.shape or not np.array_equal(arr, want):
                         res.append(("composite", f"composite features[{ftype.value}] differ from the column-wise "
                                     f"concatenation of its components"))
-                    names = [COLNAME.get(k2, k2) for p in comp.feature_observers if ftype in p.features
-                             for k2 in [next(k3 for k3, c3 in __import__('impl_ext').FKINDS.items() if type(p) is c3)]]
+                    names = []
+                    for p in comp.feature_observers:
+                        if ftype not in p.features:
+                            continue
+                        base = type(p).__name__.replace("Observer", "")
+                        k = p.features[ftype].shape[1]
+                        names += [f"{base}_{i}" for i in range(k)] if k > 1 else [base]
                     if list(comp.column_names[ftype]) != names:
                         res.append(("composite-names", f"column names {comp.column_names[ftype]} != {names}"))
+                    if len(comp.column_names[ftype]) != arr.shape[1]:
+                        res.append(("composite-names", f"{len(comp.column_names[ftype])} column names for "
+                                    f"{arr.shape[1]} columns of {ftype.value}"))
+                try:
+                    comp.features_as_dataframe
+                except Exception as e:  # pylint: disable=broad-except
+                    res.append(("composite-names", f"features_as_dataframe raised {type(e).__name__}: {e}"))
         ctx["dispatched"] = True
         return res
